@@ -14,13 +14,16 @@ Names == << <<>>, <<97, 46, 98>>, <<130, 160>>, <<149, 92, 46, 98>> >>
 Body(i, len) == [j \in 1..len |-> (i * 53 + j * 29) % 256]
 
 LensFor(n) == IF n <= 2 \/ ~Quick THEN {0, 1, 31, 32, 33, 64} ELSE {0, 1, 32, 33}
-NameIdx(n) == IF n <= 2 THEN 1..4 ELSE 1..3
+NameIdx(n) == IF n <= 2 \/ ~Quick THEN 1..4 ELSE 1..3
 
 InjSeqs(S, n) == { s \in [1..n -> S] : \A i, j \in 1..n : s[i] = s[j] => i = j }
-ValuesOfSize(n) ==
-  { [i \in 1..n |-> <<Names[ns[i]], Body(i, ls[i])>>] : ns \in InjSeqs(NameIdx(n), n), ls \in [1..n -> LensFor(n)] }
+ValuesOver(n, names) ==
+  { [i \in 1..n |-> <<Names[ns[i]], Body(i, ls[i])>>] : ns \in InjSeqs(names, n), ls \in [1..n -> LensFor(n)] }
+ValuesOfSize(n) == ValuesOver(n, NameIdx(n))
 MaxN == 3
 Values == UNION { ValuesOfSize(n) : n \in 0..MaxN }
+\* replayed against the code: three names are enough for three files (keeps the printed volume bounded)
+GenValues == UNION { ValuesOver(n, IF n <= 2 THEN 1..4 ELSE 1..3) : n \in 0..MaxN }
 
 \* ---- layouts in scope
 Items(n) == { <<k, i>> : k \in {"n", "b"}, i \in 1..n }
@@ -44,7 +47,7 @@ Lays(v) ==
 
 \* thorough only: every one of the 720 placements of three files, on a reduced value set
 AllOrderValues ==
-  { [i \in 1..3 |-> <<Names[i + 1], Body(i, ls[i])>>] : ls \in [1..3 -> {0, 1, 33}] }
+  { [i \in 1..3 |-> <<Names[i + 1], Body(i, ls[i])>>] : ls \in [1..3 -> {0, 1, 32, 33}] }
 AllOrderLays ==
   { [order |-> o, gaps |-> [k \in 1..6 |-> IF k = 3 THEN 2 ELSE 0], fill |-> 170, tail |-> 1] : o \in SetToSeqs(Items(3)) }
 
@@ -72,7 +75,7 @@ RndCase(seed) ==
   IN [v |-> v, lay |-> [order |-> order, gaps |-> gaps, fill |-> r[6 * n + 1] % 256, tail |-> r[6 * n + 2] % 40]]
 SeedBase == IF "VERIF_SEED" \in DOMAIN IOEnv THEN atoi(IOEnv.VERIF_SEED) ELSE 1
 RndSeeds == IF Quick THEN {} ELSE { (1000 + 97 * k + 31 * SeedBase) % 65537 : k \in 1..6 }
-RndSteps == 400
+RndSteps == 2000
 
 VARIABLE c
 Init == c = [k |-> "root"]
@@ -83,7 +86,8 @@ PickSeed == c.k = "root" /\ c' \in { [k |-> "rnd", seed |-> s, step |-> 0] : s \
 StepSeed == c.k = "rnd" /\ c.step < RndSteps /\ c' = [k |-> "rnd", seed |-> Lcg(c.seed), step |-> c.step + 1]
 Next == PickValue \/ PickLayout \/ PickAllOrders \/ PickSeed \/ StepSeed
 Spec == Init /\ [][Next]_c
-GenNext == PickValue \/ PickSeed \/ StepSeed
+PickGenValue == c.k = "root" /\ c' \in { [k |-> "val", v |-> v] : v \in GenValues }
+GenNext == PickGenValue \/ PickSeed \/ StepSeed
 GenSpec == Init /\ [][GenNext]_c
 
 Inv ==
